@@ -190,6 +190,10 @@ for _kind in ("traditional", "other"):
     TASKS.append(FunctionTask(_c, module_env={"HvsrTraditional": _ClsV("HvsrTraditional")}, label=f"hvsrpy.hvsr_azimuthal.HvsrAzimuthal._check_input[{_kind}]",
                               clauses=["azimuths are accepted exactly on [0, 180]"]))
 
+# SeismicRecording3C.split keeps the orientation (its contract is stated and proved with the C10 contracts; it is an obligation of this property too)
+import contracts.C10 as _C10
+TASKS += [t for t in _C10.TASKS if getattr(t, "label", "") == "hvsrpy.seismic_recording_3c.SeismicRecording3C.split" or (hasattr(t, "contract") and t.contract.qual.endswith("SeismicRecording3C.split"))]
+
 META = dict(
     level="other",
     explanation="proved: orient_sensor_to is the stated rotation for every recording and angle (pointwise postcondition, frame, stored orientation); "
